@@ -208,29 +208,84 @@ Proof.
   rewrite Hp. apply (lf_incl _ _ _ _ _ _ Hf). exact Hp.
 Qed.
 
-(* the success part of the conclusion *)
-Definition okstep (sc : list N) (e : senv) (st' : sstate) (F : list N) (c c' : N)
+(* the success part of the conclusion; for a statement the scope grows from sc to sc' *)
+Definition okstepS (sc sc' : list N) (e' : senv) (st' : sstate) (F : list N) (c c' : N)
            (E : env) (stL : state) (b : block) (E' : env) (stL' : state) (F' : list N) : Prop :=
   ExecS E b stL (ROk (E', SigNormal) stL') /\ wframe bound c c' E stL E' stL' /\
-  rel pv bound sc e st' E' stL' /\ F_new F F' c c' /\ keep sc E E'.
+  rel pv bound sc' e' st' E' stL' /\ F_new F F' c c' /\ keep sc E E'.
 
-Definition eval_post (sc : list N) (e : senv) (F : list N) (c c' : N) (E : env) (stL : state) (b : block)
+Definition okstep (sc : list N) (e : senv) (st' : sstate) (F : list N) (c c' : N)
+           (E : env) (stL : state) (b : block) (E' : env) (stL' : state) (F' : list N) : Prop :=
+  okstepS sc sc e st' F c c' E stL b E' stL' F'.
+
+(* the Sylt environment after a statement agrees with the one before on the old scope and on print *)
+Definition sext (sc : list N) (e e' : senv) : Prop :=
+  forall v, In v sc \/ v = pv -> SyltSem.lookup e' v = SyltSem.lookup e v.
+
+(* ---- ends of the emitted block that are not normal: a Lua error for a failed <=>, the signals break /
+   goto L<ctx> for break / continue.  After an abrupt exit the relation holds again seen from the
+   environment and scope the block started with (the enclosing Lua block restores its environment). ---- *)
+Definition xkeep (c c' : N) (E : env) (stL stL' : state) : Prop :=
+  (s_ncell stL <= s_ncell stL')%positive /\
+  forall t p, bound <= t -> ~ (c <= t < c') -> sget (fmt_var t) E = Some p -> get_cell stL' p = get_cell stL p.
+
+Definition exit_ok {A} (ctx : N) (sc : list N) (e : senv) (c c' : N) (E : env) (stL : state)
+           (r : SyltSem.res A) (st' : sstate) (rl : res (env * signal)) : Prop :=
+  match r with
+  | SyltSem.RStop o => exists ev stL', rl = RErr ev stL' /\ SyltSem.trace st' = s_out stL'
+  | SyltSem.RAbrupt SyltSem.CBreak =>
+      exists E' stL', rl = ROk (E', SigBreak) stL' /\ rel pv bound sc e st' E stL' /\ xkeep c c' E stL stL'
+  | SyltSem.RAbrupt SyltSem.CContinue =>
+      exists E' stL', rl = ROk (E', SigGoto (fmt_label ctx)) stL' /\ rel pv bound sc e st' E stL' /\ xkeep c c' E stL stL'
+  | _ => False
+  end.
+
+Definition exit_post {A} (ctx : N) (sc : list N) (e : senv) (c c' : N) (E : env) (stL : state) (b : block)
+           (r : SyltSem.res A) (st' : sstate) : Prop :=
+  exists rl, ExecS E b stL rl /\ exit_ok ctx sc e c c' E stL r st' rl.
+
+Lemma exit_nn {A} ctx sc e c c' E stL (r : SyltSem.res A) st' rl : exit_ok ctx sc e c c' E stL r st' rl -> ~ normal_res rl.
+Proof.
+  destruct r as [a|o|[| |v]]; cbn [exit_ok]; intros H; try contradiction.
+  - destruct H as (ev & stL' & -> & _). intros [].
+  - destruct H as (E' & stL' & -> & _). intros [].
+  - destruct H as (E' & stL' & -> & _). intros [].
+Qed.
+
+Lemma xkeep_widen c c' a b E stL stL' : xkeep c c' E stL stL' -> a <= c -> c' <= b -> xkeep a b E stL stL'.
+Proof. intros [Hn Hc] Ha Hb. split; [exact Hn|]. intros t p Hbt Hr H. apply (Hc t p Hbt); [lia | exact H]. Qed.
+
+(* more statements after the exit *)
+Lemma exit_app {A} ctx sc e c c' c'' E stL b b2 (r : SyltSem.res A) st' :
+  exit_post ctx sc e c c' E stL b r st' -> c' <= c'' -> exit_post ctx sc e c c'' E stL (b ++ b2) r st'.
+Proof.
+  intros (rl & Hx & Hok) Hc. exists rl. split; [apply ExecS_app_stop; [exact Hx | eapply exit_nn; exact Hok]|].
+  destruct r as [a|o|[| |v]]; cbn [exit_ok] in *; try contradiction; try exact Hok.
+  - destruct Hok as (E' & stL' & -> & Hr & Hk). exists E', stL'. split; [reflexivity | split; [exact Hr | eapply xkeep_widen; [exact Hk | lia | exact Hc]]].
+  - destruct Hok as (E' & stL' & -> & Hr & Hk). exists E', stL'. split; [reflexivity | split; [exact Hr | eapply xkeep_widen; [exact Hk | lia | exact Hc]]].
+Qed.
+
+Definition eval_post (ctx : N) (sc : list N) (e : senv) (F : list N) (c c' : N) (E : env) (stL : state) (b : block)
            (l' : alut) (v : N) (r : SyltSem.res sval) (st' : sstate) : Prop :=
   match r with
   | SyltSem.RVal sv_ =>
       exists E' stL' F', okstep sc e st' F c c' E stL b E' stL' F' /\
                          (1 <= count_of u v -> denotes F' E' stL' (aexpand l' v) sv_)
-  | SyltSem.RStop o =>
-      exists ev stL', ExecS E b stL (RErr ev stL') /\ SyltSem.trace st' = s_out stL'
-  | SyltSem.RAbrupt _ => True
+  | _ => exit_post ctx sc e c c' E stL b r st'
   end.
 
+(* the results of the reference interpreter the theorem speaks about: values, a failed <=> / reached <!>,
+   break and continue (ret is outside the fragment) *)
 Definition interesting {A} (r : SyltSem.res A) : Prop :=
   match r with
   | SyltSem.RVal _ => True
   | SyltSem.RStop o => good_stop o
-  | SyltSem.RAbrupt _ => False
+  | SyltSem.RAbrupt SyltSem.CBreak | SyltSem.RAbrupt SyltSem.CContinue => True
+  | SyltSem.RAbrupt (SyltSem.CReturn _) => False
   end.
+
+Lemma interesting_dec {A} (r : SyltSem.res A) : {interesting r} + {~ interesting r}.
+Proof. destruct r as [a|o|[| |v]]; cbn; auto. destruct o; cbn; auto. Qed.
 
 (* the static context of a code segment numbered in [c, c') *)
 Record ctx_ok (l : alut) (F : list N) (E : env) (c c' : N) : Prop := mkCtx {
@@ -261,7 +316,7 @@ Definition P_eval (n : nat) : Prop :=
     ucovers u code -> ctx_ok l F E c c' ->
     rel pv bound sc e st E stL ->
     interesting r ->
-    exists b l', cshape l code b l' c c' /\ c <= v /\ v < c' /\ eval_post sc e F c c' E stL b l' v r st'.
+    exists b l', cshape l code b l' c c' /\ c <= v /\ v < c' /\ eval_post ctx sc e F c c' E stL b l' v r st'.
 
 (* the structural half alone: the lowering of a fragment expression is balanced and emits *)
 Definition L_expr (g : nat) : Prop :=
